@@ -114,7 +114,7 @@ func (s site) String() string {
 }
 
 func sitesOf(sh *shapeDef) []site {
-	out := []site{{kind: "top"}, {kind: "func"}, {kind: "closure-out"}}
+	out := []site{{kind: "top"}, {kind: "func"}, {kind: "closure-out"}, {kind: "trait"}}
 	for _, c := range sh.classes {
 		for _, r := range sh.descOrSelf(c.role) {
 			out = append(out, site{"method", c.role, r})
@@ -141,6 +141,33 @@ type cell struct {
 	Op   string `json:"op"` // read | write | isset | call
 	Body string `json:"body"`
 	Name string `json:"member"`
+	// shared-site cells (site kind "trait"): the access is written once (trait method c<Base>)
+	// and executed Step-th by an object of class Exec, which uses the trait
+	Base int    `json:"base,omitempty"`
+	Exec string `json:"exec,omitempty"`
+	Step int    `json:"step,omitempty"`
+}
+
+// lexOf is the lexical class of the code of a cell: a trait method belongs to the class using it.
+func lexOf(st site, c *cell) string {
+	if st.kind == "trait" {
+		return c.Exec
+	}
+	return st.lex
+}
+
+// traitUsers: the classes that `use` the shared trait, and the order in which they execute each
+// access: stranger cold, owner, stranger warm, other stranger, owner again, stranger again.
+func traitUsers(sh *shapeDef) (users, seq []string) {
+	users = []string{sh.decl, "U"}
+	seq = []string{"U", sh.decl, "U", sh.decl, "U"}
+	for _, c := range sh.classes {
+		if c.role == "B" {
+			users = append(users, "B")
+			seq = []string{"U", sh.decl, "U", "B", sh.decl, "U"}
+		}
+	}
+	return
 }
 
 const newVal = "NEW"
@@ -338,6 +365,19 @@ func cellsOf(sh *shapeDef, st site, cn func(string) string) []cell {
 			}
 		}
 	}
+	if st.kind == "trait" {
+		_, seq := traitUsers(sh)
+		var exp []cell
+		for _, b := range out {
+			for i, ex := range seq {
+				c := b
+				c.Base, c.Exec, c.Step = b.ID, ex, i
+				c.ID = len(exp)
+				exp = append(exp, c)
+			}
+		}
+		return exp
+	}
 	return out
 }
 
@@ -400,7 +440,7 @@ const prelude = `function sh($v) {
 func initOf(m member) string { return m.name + "0" }
 
 // visScript renders the fixture with the given cells of one site. bare = no try/catch around
-// the cell (exactly one cell expected).
+// the LAST cell (earlier cells - the earlier executions of a shared site - keep theirs).
 func visScript(sh *shapeDef, st site, cells []cell, cn func(string) string, bare bool) string {
 	var sb strings.Builder
 	sb.WriteString(prelude)
@@ -411,9 +451,16 @@ func visScript(sh *shapeDef, st site, cells []cell, cn func(string) string, bare
 		extra[c.role] = &strings.Builder{}
 	}
 	var top strings.Builder
+	var trait strings.Builder
+	traitDone := map[int]bool{}
 	for _, c := range cells {
 		fn := fmt.Sprintf("c%d", c.ID)
 		switch st.kind {
+		case "trait":
+			if !traitDone[c.Base] {
+				traitDone[c.Base] = true
+				fmt.Fprintf(&trait, "  public function c%d($o, $v) { $r = null; %s return $r; }\n", c.Base, c.Body)
+			}
 		case "func":
 			fmt.Fprintf(&top, "function %s($o, $v) { $r = null; %s return $r; }\n", fn, c.Body)
 		case "closure-out":
@@ -426,12 +473,23 @@ func visScript(sh *shapeDef, st site, cells []cell, cn func(string) string, bare
 			fmt.Fprintf(extra[st.lex], "  public function %s() { return function($o, $v) { $r = null; %s return $r; }; }\n", fn, c.Body)
 		}
 	}
+	isUser := map[string]bool{}
+	if st.kind == "trait" {
+		users, _ := traitUsers(sh)
+		for _, u := range users {
+			isUser[u] = true
+		}
+		sb.WriteString("trait " + cn("T") + " {\n" + trait.String() + "}\n")
+	}
 	for _, c := range sh.classes {
 		sb.WriteString("class " + cn(c.role))
 		if c.parent != "" {
 			sb.WriteString(" extends " + cn(c.parent))
 		}
 		sb.WriteString(" {\n")
+		if isUser[c.role] {
+			sb.WriteString("  use " + cn("T") + ";\n")
+		}
 		if c.role == sh.decl {
 			for _, m := range ms {
 				st := ""
@@ -472,7 +530,7 @@ func visScript(sh *shapeDef, st site, cells []cell, cn func(string) string, bare
 		fmt.Fprintf(&sb, "$obj%s = new %s();\n", c.role, cn(c.role))
 	}
 	dn, sn := "$obj"+sh.decl, "$objS"
-	for _, c := range cells {
+	for ci, c := range cells {
 		fn := fmt.Sprintf("c%d", c.ID)
 		arg := dn
 		if c.Recv == "o:S" {
@@ -492,8 +550,10 @@ func visScript(sh *shapeDef, st site, cells []cell, cn func(string) string, bare
 			call = fmt.Sprintf("$r = %s::%s(%s, \"%s\");", cn(st.thisR), fn, arg, newVal)
 		case "closure-in":
 			call = fmt.Sprintf("$cl = $obj%s->%s(); $r = $cl(%s, \"%s\");", st.thisR, fn, arg, newVal)
+		case "trait":
+			call = fmt.Sprintf("$r = $obj%s->c%d(%s, \"%s\");", c.Exec, c.Base, arg, newVal)
 		}
-		if bare {
+		if bare && ci == len(cells)-1 {
 			fmt.Fprintf(&sb, "echo \"@@%d@@\"; %s echo \"~R~ok|\", sh($r);\n", c.ID, call)
 			continue
 		}
@@ -646,7 +706,7 @@ func judge(sh *shapeDef, st site, c *cell, o obsCell) string {
 	if o.Panic {
 		return "crash"
 	}
-	exp := allowed(sh, c.M.mod, st.lex)
+	exp := allowed(sh, c.M.mod, lexOf(st, c))
 	if c.Op == "isset" {
 		// isset is not a read, write or call: only the no-crash clause and "no effect" apply
 		if o.After != initialAfter(sh) {
@@ -705,7 +765,7 @@ func recvClass(st site, c *cell) string {
 }
 
 func visKey(sh *shapeDef, st site, c *cell, clause string) string {
-	return fmt.Sprintf("vis:%s:%s:%s:%s:%s@%s", c.M.tag(), c.M.mod, c.Path, c.Op, clause, relation(sh, st.lex))
+	return fmt.Sprintf("vis:%s:%s:%s:%s:%s@%s", c.M.tag(), c.M.mod, c.Path, c.Op, clause, relation(sh, lexOf(st, c)))
 }
 
 func sortedKeys[M ~map[string]V, V any](m M) []string {
